@@ -43,8 +43,16 @@ const (
 
 // Pause / Resume bracket oracle code (fingerprints, reads) so that it does
 // not consume simulated time and can never be preempted.
-func Pause()  { pausedDepth++ }
-func Resume() { pausedDepth-- }
+func Pause() {
+	if zzsimhook.Instrumented {
+		pausedDepth++
+	}
+}
+func Resume() {
+	if zzsimhook.Instrumented {
+		pausedDepth--
+	}
+}
 
 var pausedDepth int
 
